@@ -34,6 +34,8 @@ CURATED = {
     "alkyne_trimerisation": "[CH3:7][C:1]#[CH:2].[CH:3]#[CH:4].[CH:5]#[CH:6]>>[CH3:7][c:1]1[cH:2][cH:3][cH:4][cH:5][cH:6]1",
     # both partners unsymmetrical: two regioisomers exist, the rule's only symmetry is the joint flip
     "diels_alder_unsym": "[CH3:17][C:1]([H:7])=[C:2]([H:9])[C:3]([H:10])=[C:4]([H:11])[H:12].[C:5]([H:13])([H:14])=[C:6]([H:15])[C:16]#[N:18]>>[CH3:17][C:1]1([H:7])[C:2]([H:9])=[C:3]([H:10])[C:4]([H:11])([H:12])[C:5]([H:13])([H:14])[C:6]1([H:15])[C:16]#[N:18]",
+    # a symmetric substrate: the rule written on ethylene oxide has two look-alike carbons (see CUR_FOREIGN for unsymmetrical substrates)
+    "epoxide_h2_sym": "[C:1]1([H:6])([H:7])[O:3][C:2]1([H:8])[H:9].[H:4][H:5]>>[H:4][C:1]([H:6])([H:7])[C:2]([H:8])([H:9])[O:3][H:5]",
     "transesterification": "[CH3:1][C:2](=[O:3])[O:4][CH3:5].[CH3:6][CH2:7][O:8][H:9]>>[CH3:1][C:2](=[O:3])[O:8][CH2:7][CH3:6].[CH3:5][O:4][H:9]",
 }
 
@@ -73,3 +75,22 @@ def minimal_explicit(rsmi: str) -> str:
             m.RemoveAtom(i)
         out.append(Chem.MolToSmiles(m, canonical=False))
     return ">>".join(out)
+
+
+# substrates of other molecules for the curated rules (forward direction): several inequivalent sites for the same rule
+CUR_FOREIGN = {
+    "epoxide_h2_sym": ["CC1CO1.[H][H]", "CC1OC1(C)C.[H][H]"],
+    "epoxide_h2": ["CC1OC1.[H][H]", "CC1OC1C.[H][H]"],
+    "hbr_propene": ["CC(C)=CC.Br", "C=CC=C.Br", "CC=CCC.Br"],
+    "h2o_propene": ["CC(C)=CC.O", "CC=CCC.O"],
+    "diels_alder": ["CC=CC=C.C=CC#N", "C=CC(C)=C.C=CC"],
+    "esterification": ["OC(=O)CC(=O)O.CO", "CC(=O)O.OCCO", "CC(=O)O.OCC(C)O"],
+    "sn2": ["BrCCBr.[OH-]", "CC(Br)CBr.[OH-]"],
+    "amide_formation": ["CC(=O)Cl.NCCN", "CC(=O)Cl.CNCCN"],
+    "imine_formation": ["CC(=O)CC=O.CN", "CC=O.NCCN"],
+    "ether_formation": ["CO.CCO", "CO.OCCO"],
+    "aldol": ["CC=O.CCC=O", "CC(=O)C.CC=O"],
+    "hydroamination": ["CNN.CC=CCC", "CNN.C=CC=C"],
+    "deprotonation": ["OC(=O)CC(=O)O.[OH-]", "CC(=O)O.[OH-].O"],
+    "protonation": ["NCCN.[H+]", "CNC.[H+]"],
+}
